@@ -37,6 +37,7 @@ var Properties = map[string][]string{
 	"C11": {"C11.c", "C01.d"},
 	"C12": {"C12.b"},
 	"C13": {"C13.a", "C13.c"},
+	"C15": {"C15.b", "C15.d", "C12.b"},
 	"C14": {"C14.abc", "C14.d", "C14.e"},
 }
 
